@@ -24,9 +24,16 @@ def run(job):
         c = MoneyConverter(EUR)
         c.update(None, [(USD, rate, 1)])
         convs.append((c, rate))
-    actions = [("reg", i) for i in range(3)] + [("unreg", i) for i in range(3)] \
+    # a fourth converter that has no rate for the pair: when it is the most
+    # recent one the conversion fails, whatever older converters know
+    GBP = Money.register_currency("GBP")
+    c = MoneyConverter(EUR)
+    c.update(None, [(GBP, Decimal("0.9"), 1)])
+    convs.append((c, None))
+    actions = [("reg", i) for i in range(4)] + [("unreg", i) for i in range(4)] \
         + [("convert", None)]
-    job.bound = (f"all histories of length <= {maxlen} over 3 converters x "
+    job.bound = (f"all histories of length <= {maxlen} over 4 converters (one "
+                 f"without a rate for the pair) x "
                  f"{{register, unregister, convert}} + with-block nestings "
                  f"(normal / exceptional exit)")
     for n in range(1, maxlen + 1):
@@ -58,7 +65,8 @@ def run(job):
                         got = O.F(r.amount)
                     except UnitConversionError:
                         got = None
-                    exp = O.F(10 * convs[model[-1]][1]) if model else None
+                    exp = O.F(10 * convs[model[-1]][1]) \
+                        if model and convs[model[-1]][1] is not None else None
                     if got != exp:
                         ok_all = False
                         trace.append(("convert", got, exp))
@@ -74,6 +82,30 @@ def run(job):
     if job.shard:
         return
     # with-blocks incl. exceptional exit
+    def rate_of(i):
+        return None if convs[i][1] is None else O.F(10 * convs[i][1])
+
+    def conv_now():
+        try:
+            return O.F(Money(10, EUR).convert(USD).amount)
+        except UnitConversionError:
+            return None
+    # nestings with the same converter entered again below another one
+    for order in itertools.product(range(4), repeat=3):
+        with convs[order[0]][0]:
+            a = conv_now()
+            with convs[order[1]][0]:
+                b = conv_now()
+                with convs[order[2]][0]:
+                    c = conv_now()
+                b2 = conv_now()
+            a2 = conv_now()
+        job.case("money/with-uses-innermost", order,
+                 (a, b, c, b2, a2) == (rate_of(order[0]), rate_of(order[1]),
+                                       rate_of(order[2]), rate_of(order[1]),
+                                       rate_of(order[0])) and
+                 list(Money.registered_converters()) == [],
+                 (a, b, c, b2, a2), "rate of the innermost entered converter")
     for order in itertools.permutations(range(3), 3):
         for fail_at in (None, 0, 1, 2):
             try:
